@@ -123,6 +123,7 @@ func (*G1) Cofactor() cardinal.Cardinal {
 
 // Order returns the group or field order.
 func (*G1) Order() cardinal.Cardinal {
+	_ = NewScalarField() // scalarFieldOrder is initialised lazily
 	return cardinal.NewFromNumeric(scalarFieldOrder.Nat())
 }
 
